@@ -141,23 +141,75 @@ type ptState struct {
 	nextsSince int
 }
 
+// virtRange returns the rank range [vlo, vup) of the virtual table in force ([0, R) if none).
+func virtRange(x *Exec) (int, int) {
+	if !x.V.On {
+		return 0, x.U.R()
+	}
+	vup := x.V.Vhi
+	if x.V.VhiIncl {
+		vup++
+	}
+	return x.V.Vlo, vup
+}
+
+// rebind is the contract state of an iterator that was opened with / re-bound to [lo, hi).
+func (s *ptState) rebind(x *Exec, lo, hi int) {
+	*s = ptState{lo: lo, hi: hi, elo: lo, ehi: hi, st: "unpos", pfx: -1, fwd: true, sko: "none"}
+	vlo, vup := virtRange(x)
+	if vlo > s.elo {
+		s.elo = vlo
+	}
+	if vup < s.ehi {
+		s.ehi = vup
+	}
+}
+
+// setb re-binds iterator h on the leader and appends the step to the script.
+func (s *ptState) setb(x *Exec, h, lo, hi int, script *[]Ev) {
+	e := Ev{"op": "setb", "h": h, "lo": lo, "hi": hi}
+	*script = append(*script, e)
+	x.Step(e)
+	s.rebind(x, lo, hi)
+}
+
+// nextBounds draws the bounds of a reuse of an iterator bound to [lo, hi): the window moves
+// forward (lo' >= hi, mostly lo' = hi: consecutive scans), backward (hi' <= lo) or anywhere.
+// ok=false: no bounds overlapping the virtual table were found.
+func nextBounds(rng *rand.Rand, x *Exec, lo, hi int) (int, int, bool) {
+	r := x.U.R()
+	vlo, vup := virtRange(x)
+	for try := 0; try < 20; try++ {
+		nlo, nhi := 0, r
+		switch m := rng.IntN(5); {
+		case m <= 1 && hi < r:
+			nlo = hi
+			if rng.IntN(3) == 0 {
+				nlo = hi + rng.IntN(r-hi)
+			}
+			nhi = nlo + 1 + rng.IntN(r-nlo)
+		case m <= 3 && lo > 0:
+			nhi = lo
+			if rng.IntN(3) == 0 {
+				nhi = 1 + rng.IntN(lo)
+			}
+			nlo = rng.IntN(nhi)
+		default:
+			nlo, nhi = randBounds(rng, r)
+		}
+		if nlo < vup && nhi > vlo {
+			return nlo, nhi, true
+		}
+	}
+	return 0, 0, false
+}
+
 // GenPointOps generates n in-contract positioning calls on iterator h,
 // executing them on the leader and appending them to the script.
 func GenPointOps(rng *rand.Rand, x *Exec, h, lo, hi, n int, script *[]Ev) {
 	u := x.U
-	s := &ptState{lo: lo, hi: hi, elo: lo, ehi: hi, st: "unpos", pfx: -1, fwd: true, sko: "none"}
-	if x.V.On {
-		vup := x.V.Vhi
-		if x.V.VhiIncl {
-			vup++
-		}
-		if x.V.Vlo > s.elo {
-			s.elo = x.V.Vlo
-		}
-		if vup < s.ehi {
-			s.ehi = vup
-		}
-	}
+	s := &ptState{}
+	s.rebind(x, lo, hi)
 	for i := 0; i < n; i++ {
 		type cand struct {
 			o string
@@ -183,6 +235,9 @@ func GenPointOps(rng *rand.Rand, x *Exec, h, lo, hi, n int, script *[]Ev) {
 		if s.pfx < 0 && s.st == "at" && s.fwd {
 			cs = append(cs, cand{"nextprefix", 4})
 		}
+		if s.st != "unpos" {
+			cs = append(cs, cand{"setb", 3})
+		}
 		tot := 0
 		for _, c := range cs {
 			tot += c.w
@@ -195,6 +250,12 @@ func GenPointOps(rng *rand.Rand, x *Exec, h, lo, hi, n int, script *[]Ev) {
 				break
 			}
 			pick -= c.w
+		}
+		if o == "setb" {
+			if nlo, nhi, ok := nextBounds(rng, x, s.lo, s.hi); ok {
+				s.setb(x, h, nlo, nhi, script)
+			}
+			continue
 		}
 		k, f := 0, 0
 		switch o {
@@ -220,45 +281,163 @@ func GenPointOps(rng *rand.Rand, x *Exec, h, lo, hi, n int, script *[]Ev) {
 		*script = append(*script, e)
 		res := x.ptOp(h, o, k, f)
 		x.emit(Ev{"op": "it", "h": h, "o": o, "k": k, "f": f, "res": res})
-		// contract state from the real result
-		forward := o != "last" && o != "seeklt" && o != "prev"
-		switch o {
-		case "first", "last", "seekge", "seeklt":
-			s.pfx = -1
-		case "seekprefixge":
-			s.pfx = k / (u.S + 1)
-		}
-		switch o {
-		case "seekge", "seekprefixge":
-			s.sko, s.sk, s.nextsSince = o, k, 0
-			s.curK = -1
-		case "next":
-			s.nextsSince++
-		default:
-			s.sko = "none"
-		}
-		s.fwd = forward
-		if len(res) == 4 && res[0] >= 0 {
-			s.curK = res[0]
-			s.st = "at"
-			if s.pfx >= 0 && res[0]/(u.S+1) != s.pfx {
-				s.st = "undef"
-			}
-		} else if len(res) == 0 {
-			if s.pfx >= 0 {
-				s.st = "undef"
-			} else if o == "nextprefix" {
-				s.st = "undef" // Prev is not documented as valid after an exhausted NextPrefix
-			} else if forward {
-				s.st = "after"
-			} else {
-				s.st = "before"
-			}
-		} else {
+		s.observe(u, o, k, res)
+	}
+}
+
+// observe updates the contract state from the real result of call o(k).
+func (s *ptState) observe(u *Univ, o string, k int, res []int) {
+	forward := o != "last" && o != "seeklt" && o != "prev"
+	switch o {
+	case "first", "last", "seekge", "seeklt":
+		s.pfx = -1
+	case "seekprefixge":
+		s.pfx = k / (u.S + 1)
+	}
+	switch o {
+	case "seekge", "seekprefixge":
+		s.sko, s.sk, s.nextsSince = o, k, 0
+		s.curK = -1
+	case "next":
+		s.nextsSince++
+	default:
+		s.sko = "none"
+	}
+	s.fwd = forward
+	if len(res) == 4 && res[0] >= 0 {
+		s.curK = res[0]
+		s.st = "at"
+		if s.pfx >= 0 && res[0]/(u.S+1) != s.pfx {
 			s.st = "undef"
 		}
-		if s.st == "undef" {
-			s.sko = "none"
+	} else if len(res) == 0 {
+		if s.pfx >= 0 {
+			s.st = "undef"
+		} else if o == "nextprefix" {
+			s.st = "undef" // Prev is not documented as valid after an exhausted NextPrefix
+		} else if forward {
+			s.st = "after"
+		} else {
+			s.st = "before"
+		}
+	} else {
+		s.st = "undef"
+	}
+	if s.st == "undef" {
+		s.sko = "none"
+	}
+}
+
+// GenSweepOps reuses ONE iterator h over a sequence of windows, the way pebble.Iterator and
+// levelIter reuse table iterators: consecutive windows moving forward (SeekGE + Next...),
+// moving backward (SeekLT + Prev...), or in random order; scans run to exhaustion or stop
+// early (so that the next seek finds the block of the previous position still loaded), and
+// some windows get a second seek.  The caller opens h with the first window.
+//
+// sweepWindows draws the windows: consecutive ranges between random cut points (every rank is
+// the last key of some block under some configuration), all overlapping the virtual table.
+func sweepWindows(rng *rand.Rand, x *Exec) [][2]int {
+	vlo, vup := virtRange(x)
+	if vlo < 0 {
+		vlo = 0
+	}
+	if vup > x.U.R() {
+		vup = x.U.R()
+	}
+	if vup-vlo < 1 {
+		return nil
+	}
+	// cut points inside the (virtual) table's range: every window overlaps it
+	set := map[int]bool{}
+	for i, n := 0, 2+rng.IntN(5); i < n; i++ {
+		set[vlo+rng.IntN(vup-vlo+1)] = true
+	}
+	if rng.IntN(2) == 0 {
+		set[0] = true
+	}
+	if rng.IntN(2) == 0 {
+		set[x.U.R()] = true
+	}
+	var cuts []int
+	for c := range set {
+		cuts = append(cuts, c)
+	}
+	sort.Ints(cuts)
+	var wins [][2]int
+	for i := 0; i+1 < len(cuts); i++ {
+		if cuts[i] < vup && cuts[i+1] > vlo {
+			wins = append(wins, [2]int{cuts[i], cuts[i+1]})
+		}
+	}
+	switch rng.IntN(5) {
+	case 0, 1: // forward
+	case 2, 3: // backward
+		for i, j := 0, len(wins)-1; i < j; i, j = i+1, j-1 {
+			wins[i], wins[j] = wins[j], wins[i]
+		}
+	default:
+		rng.Shuffle(len(wins), func(i, j int) { wins[i], wins[j] = wins[j], wins[i] })
+	}
+	return wins
+}
+
+// GenSweepOps scans the windows on iterator h (opened with wins[0]), re-binding it in between.
+func GenSweepOps(rng *rand.Rand, x *Exec, h int, wins [][2]int, script *[]Ev) {
+	u := x.U
+	s := &ptState{}
+	call := func(o string, k int) []int {
+		*script = append(*script, Ev{"op": "it", "h": h, "o": o, "k": k, "f": 0})
+		res := x.ptOp(h, o, k, 0)
+		x.emit(Ev{"op": "it", "h": h, "o": o, "k": k, "f": 0, "res": res})
+		s.observe(u, o, k, res)
+		return res
+	}
+	for wi, w := range wins {
+		if wi == 0 {
+			s.rebind(x, w[0], w[1])
+		} else {
+			s.setb(x, h, w[0], w[1], script)
+		}
+		// direction of this window's scan: that of the sweep (towards the next window), sometimes the other
+		fwdScan := wi+1 >= len(wins) || wins[wi+1][0] >= w[0]
+		if wi+1 >= len(wins) && wi > 0 {
+			fwdScan = w[0] >= wins[wi-1][0]
+		}
+		if rng.IntN(6) == 0 {
+			fwdScan = !fwdScan
+		}
+		for pass := 0; pass < 2; pass++ {
+			limit := 1000
+			if rng.IntN(5) < 2 {
+				limit = rng.IntN(4)
+			}
+			var res []int
+			if fwdScan {
+				k := s.lo
+				if pass == 1 || rng.IntN(4) == 0 {
+					k = s.lo + rng.IntN(s.ehi-s.lo+1)
+				}
+				if k < s.lo {
+					k = s.lo
+				}
+				res = call("seekge", k)
+			} else {
+				k := s.hi
+				if pass == 1 || rng.IntN(4) == 0 {
+					k = s.elo + rng.IntN(s.hi-s.elo+1)
+				}
+				res = call("seeklt", k)
+			}
+			for n := 0; len(res) == 4 && res[0] >= 0 && n < limit && n < 64; n++ {
+				if fwdScan {
+					res = call("next", 0)
+				} else {
+					res = call("prev", 0)
+				}
+			}
+			if rng.IntN(3) != 0 {
+				break
+			}
 		}
 	}
 }
@@ -312,12 +491,12 @@ func randBounds(rng *rand.Rand, r int) (int, int) {
 // GenScript builds the table under the leader configuration and generates the
 // whole script while executing it there (the leader's events are recorded).
 func GenScript(rng *rand.Rand, leader WCfg, p, s int, tab *Table, iters, opsPer int, t *Trace) ([]Ev, error) {
-	return GenScriptV(rng, leader, p, s, tab, iters, opsPer, t, nil, 0)
+	return GenScriptV(rng, leader, p, s, tab, iters, opsPer, t, nil, 0, 2)
 }
 
-// GenScriptV is GenScript with an optional virt{} step after the table and
-// ncopy CopySpan steps at the end.
-func GenScriptV(rng *rand.Rand, leader WCfg, p, s int, tab *Table, iters, opsPer int, t *Trace, virt Ev, ncopy int) ([]Ev, error) {
+// GenScriptV is GenScript with an optional virt{} step after the table,
+// ncopy CopySpan steps at the end and the number of reused "sweep" iterators.
+func GenScriptV(rng *rand.Rand, leader WCfg, p, s int, tab *Table, iters, opsPer int, t *Trace, virt Ev, ncopy, sweeps int) ([]Ev, error) {
 	x := &Exec{U: NewUniv(p, s, leader.Shape), VC: Vals{Sizes: leader.ValSizes}, Cfg: leader, T: t}
 	x.reset()
 	defer x.CloseAll()
@@ -360,6 +539,20 @@ func GenScriptV(rng *rand.Rand, leader WCfg, p, s int, tab *Table, iters, opsPer
 		script = append(script, e)
 		x.Step(e)
 		GenPointOps(rng, x, h, lo, hi, opsPer, &script)
+		c := Ev{"op": "close", "h": h}
+		script = append(script, c)
+		x.Step(c)
+	}
+	for i := 0; i < sweeps; i++ {
+		wins := sweepWindows(rng, x)
+		if len(wins) == 0 {
+			continue
+		}
+		h++
+		e := Ev{"op": "open", "h": h, "t": "pt", "lo": wins[0][0], "hi": wins[0][1]}
+		script = append(script, e)
+		x.Step(e)
+		GenSweepOps(rng, x, h, wins, &script)
 		c := Ev{"op": "close", "h": h}
 		script = append(script, c)
 		x.Step(c)
